@@ -547,18 +547,8 @@ func init() {
 						l.Sample(map[string]any{"case": c.String(), "outcome": out.Digest, "commit_order": env.Hooks.Placed})
 					}
 				}
-				func() {
-					defer func() {
-						if p := recover(); p != nil {
-							if strings.Contains(fmt.Sprint(p), "replay diverged") {
-								l.Outcome("case-not-replayable (map-order nondeterminism)")
-								return
-							}
-							panic(p)
-						}
-					}()
-					ex.Explore()
-				}()
+				ex.Explore()
+				noteDiverged(l, ex, "case")
 				l.Transitions += int64(ex.Points)
 			}
 		})
